@@ -132,6 +132,8 @@ def make_dict(pairs):
 
 
 def set_has(s: PySet, v):
+    if not s.items:
+        return False
     kv = key_of(v)
     return any(key_of(x) == kv for x in s.items)
 
